@@ -20,6 +20,7 @@ package handshake
 
 //@ func (h *PeerIDAuthHandshakeServer) Run
 //@ prop C19
+//@ inline addChallengeClientParam
 //@ callsite verifySig#0 requires called(Unmarshal, 0) && ret(Unmarshal, 0, 0) == nil && arg(Unmarshal, 0, 1) == h.Hmac
 //@ callsite verifySig#0 requires !h.opaque.IsToken && h.Hostname == h.opaque.Hostname
 //@ callsite verifySig#0 requires !(ret(nowFn, 0, 0) > h.opaque.CreatedTime + challengeTTL)
@@ -36,6 +37,13 @@ package handshake
 //@ ensures result == nil && (h.state == peerIDAuthServerStateChallengeClient || h.state == peerIDAuthServerStateSignChallenge) ==>
 //@         h.opaque.PeerID == old(h.opaque.PeerID) && !h.opaque.IsToken == !old(h.opaque.IsToken)
 //@ ensures h.ran && h.state == old(h.state)
+//@ noframe
+
+// a challenge is stamped with the time it was issued (its expiry is that instant plus challengeTTL, checked in Run)
+//@ func (h *PeerIDAuthHandshakeServer) addChallengeClientParam
+//@ prop C19
+//@ ensures result == nil ==> called(nowFn, 0) && h.opaque.CreatedTime == ret(nowFn, 0, 0) && h.opaque.Hostname == h.Hostname
+//@ ensures result == nil ==> called(ReadFull, 0) && ret(ReadFull, 0, 1) == nil
 //@ noframe
 
 //@ func (h *PeerIDAuthHandshakeServer) PeerID
